@@ -82,6 +82,7 @@ def s_C13(tier, rng):
 
 def s_C14(tier, rng):
     return [("corpus", gen.corpus()),
+            ("serde_big", gen.serde_big(tier, rng)),
             ("serde_roundtrip", gen.serde_roundtrip(tier, rng, Q(tier, 2000, 30000))),
             ("serde_stream", gen.serde_stream(tier, rng, Q(tier, 600, 6000))),
             ("keyfill", gen.keyfill(tier, rng)),
@@ -89,6 +90,7 @@ def s_C14(tier, rng):
 
 def s_C15(tier, rng):
     return [("corpus", gen.corpus()),
+            ("serde_big", gen.serde_big(tier, rng)),
             ("serde_stream", gen.serde_stream(tier, rng, Q(tier, 3000, 50000))),
             ("serde_roundtrip", gen.serde_roundtrip(tier, rng, Q(tier, 500, 5000)))]
 
@@ -118,10 +120,11 @@ def s_C18(tier, rng):
             ("eq_pairs", gen.eq_pairs(tier, rng, Q(tier, 3000, 50000))),
             ("eq_after_exhaustion", gen.eq_after_exhaustion(rng)),
             ("eq_static_slices", gen.eq_static_slices(rng, Q(tier, 200, 2000))),
+            ("eq_after_memfail", gen.eq_after_memfail(rng, Q(tier, 200, 2000))),
             ("keyfill", gen.keyfill(tier, rng)),
             ("serde_roundtrip", gen.serde_roundtrip(tier, rng, Q(tier, 400, 4000)))]
 
-ALLMON = ["C01", "C02", "C04", "C06", "C07", "C08", "C10", "C12", "C13", "C14", "C16", "C18"]
+ALLMON = ["C01", "C02", "C04", "C06", "C07", "C08", "C10", "C12", "C13", "C14", "C16", "C18", "EXP"]
 
 PROPS = {
     "C01": {"streams": s_C01, "monitors": ["C01"], "conc_monitors": ["C03", "C05", "C16"]},
@@ -133,7 +136,7 @@ PROPS = {
     "C10": {"streams": s_C10, "monitors": ["C10"]},
     "C12": {"streams": s_C12, "monitors": ["C12", "C01", "C02"]},
     "C13": {"streams": s_C13, "monitors": ["C13", "C01", "C02", "C07", "C08", "C10"]},
-    "C14": {"streams": s_C14, "monitors": ["C14", "C01", "C02", "C10"]},
+    "C14": {"streams": s_C14, "monitors": ["C14", "C01", "C02", "C10", "EXP"]},
     "C15": {"streams": s_C15, "monitors": ALLMON},
     "C16": {"streams": s_C16, "monitors": ["C16"], "conc_monitors": ["C16"], "forwarding": True, "facts": True, "props_extra": ["C16F"]},
     "C17": {"streams": s_C17, "monitors": ["C17"], "forwarding": True, "facts": True, "props_extra": ["C17F"]},
